@@ -146,7 +146,7 @@ XzParse(f, i, ph, out, blocks, st) ==
 \* LZIPReader: members in file order
 RECURSIVE LzParse(_, _, _, _)
 LzParse(f, i, ph, out) ==
-  IF i > Len(f) THEN (IF ph = "hdr" /\ (i > 1 \/ ~FirstHeaderStrict) THEN Res("ok", out) ELSE Res("err", out))
+  IF i > Len(f) THEN (IF ph = "hdr" THEN Res("ok", out) ELSE Res("err", out))     \* (a 0-byte input is an empty result)
   ELSE LET r == f[i] IN
   CASE ph = "hdr" ->
          IF r.k = "LHDR" /\ ~Det(r) THEN LzParse(f, i + 1, "body", out)
@@ -198,7 +198,10 @@ TrailOuts(f) == {Members(f, j - 1) : j \in GarbageFrom(f)}
 \* an edit that leaves a sequence of intact whole members is itself a well-formed LZIP file (the format has no
 \* integrity information across members): its own content is what a correct reader returns
 SelfContent(f) == IF ~IsXz /\ f # <<>> /\ Intact(f, Len(f)) /\ Members(f, Len(f)) # <<0>> THEN {Members(f, Len(f))} ELSE {}
-AllowedOk(f) == IF ~FirstHeaderValid(f) THEN {}
+\* (the statement demands rejection of NON-EMPTY input without a valid first header; a 0-byte input is an empty result for
+\* LZIPReader, which the repository's own lzip_reference test relies on)
+AllowedOk(f) == IF f = <<>> /\ Format = "lzip" THEN {<<>>}
+                ELSE IF ~FirstHeaderValid(f) THEN {}
                 ELSE {Original} \cup (IF IsXz THEN {} ELSE TrailOuts(f) \cup SelfContent(f))
 Tolerated(f, o) == o.res = "err" \/ o.out \in AllowedOk(f)
 
